@@ -233,7 +233,7 @@ PROPS = {
                         "HashMap<String,String> behaves like the finite-map model of units/U10/prelude.rs (iteration visits each entry once; FromIterator inserts in order)"],
     },
     "C18": {
-        "units": ["U14"],
+        "units": ["U14", "U3", "U4"],
         "level": "proof",
         "witness": [(r".", "filters")],
         "sweep": ["filters"],
@@ -248,7 +248,7 @@ PROPS = {
                        "from_config, From<config::FilterRule/FilterOperation>, opt_to_regex, opt_vec_to_uuid, the adapters' `new`) is verified too: the chain built from a "
                        "configuration computes exactly keep(discovered, qualifies-under-every-configured-filter) (clause C18.chain.offers_exactly_...), it is built iff "
                        "every pattern compiles and every id parses, and lemma_c18_default_strategy / lemma_c18_player_fill_strategy conclude the property's routing "
-                       "statements from these contracts. That Connection::listen routes with select(filter(discover())) is C03 (U3).",
+                       "statements from these contracts. That Connection::listen hands the discovered list to the filter chain, the filtered list to the strategy and transfers to the strategy's pick is proved in U3 (clauses C03+..+C18.listen.*), which is why U3 / U4 are part of this check.",
         "not_covered": ["what a regular expression matches (regex crate: regex_match / regex_compile are uninterpreted)", "u32::from_str, Uuid::parse_str as functions of the text (uninterpreted)",
                         "GrpcStrategyAdapter inside DynStrategyAdapter (not a built-in mechanism; its own contract is C19)"],
         "assumptions": ["HashMap<String,String>::get behaves like lookup in the finite map of the strings' contents",
